@@ -538,10 +538,42 @@ fn ref_class(s: &Step, qname: &Name, qtype: u16, zone: &Zone) -> Option<String> 
     }
 }
 
+/// The denial claim a response makes about (qname, qtype), read off its shape: NXDOMAIN / NODATA
+/// (empty answer, not a referral) / "the answer RRset owned by qname is the expansion of the
+/// wildcard `*.<Labels-suffix of qname>`" (an RRSIG at qname whose Labels field is smaller than
+/// the owner's label count). None for ordinary positive answers and referrals.
+fn observed_claim(m: &Message, qname: &Name) -> Option<Claim> {
+    let hq = vzone::hname(&qname.to_string());
+    if m.answers.is_empty() {
+        if m.metadata.response_code == ResponseCode::NXDomain {
+            return Some(Claim::NxDomain);
+        }
+        let has_soa = m.authorities.iter().any(|r| r.record_type() == RecordType::SOA);
+        let has_ns = m.authorities.iter().any(|r| r.record_type() == RecordType::NS);
+        if m.metadata.response_code == ResponseCode::NoError && (has_soa || !has_ns) {
+            return Some(Claim::NoData);
+        }
+        return None;
+    }
+    for r in &m.answers {
+        if r.name != hq {
+            continue;
+        }
+        if let hickory_proto::rr::RData::DNSSEC(hickory_proto::dnssec::rdata::DNSSECRData::RRSIG(s)) = &r.data {
+            let labels = s.input().num_labels as usize;
+            if labels < qname.num_labels() - qname.is_wildcard() as usize {
+                return Some(Claim::Wildcard { source: qname.suffix(labels).wildcard_child(), rtype: s.input().type_covered.into() });
+            }
+        }
+    }
+    None
+}
+
 fn completeness(world: &World, rt: &tokio::runtime::Runtime, l: &mut Local, only: Option<(&str, u16)>) {
     let zone = &world.rz;
     let mut table: HashMap<(HName, RecordType), Message> = HashMap::new();
     let mut todo: Vec<(String, u16, String)> = vec![];
+    let mut deviations: Vec<(String, u16)> = vec![];
     for qn in &world.qnames {
         let name = Name::parse(qn);
         if !name.at_or_below(&zone.origin) {
@@ -568,6 +600,7 @@ fn completeness(world: &World, rt: &tokio::runtime::Runtime, l: &mut Local, only
                 table.insert((vzone::hname(qn), RecordType::from(t)), m);
                 continue;
             }
+            let mut handled = false;
             if let Some(class) = ref_class(&s, &name, t, zone) {
                 let shape_ok = match &s {
                     Step::NxDomain { .. } => m.metadata.response_code == ResponseCode::NXDomain && m.answers.is_empty(),
@@ -586,9 +619,15 @@ fn completeness(world: &World, rt: &tokio::runtime::Runtime, l: &mut Local, only
                 };
                 if shape_ok {
                     todo.push((qn.clone(), t, class));
+                    handled = true;
                 } else {
                     l.outcome("completeness:skipped-c10-deviation");
                 }
+            }
+            // any other response that has the SHAPE of a denial / wildcard expansion (also where the
+            // reference expects a referral or plain data) is judged as a deviation below
+            if !handled && observed_claim(&m, &name).is_some() {
+                deviations.push((qn.clone(), t));
             }
             table.insert((vzone::hname(qn), RecordType::from(t)), m);
         }
@@ -605,6 +644,37 @@ fn completeness(world: &World, rt: &tokio::runtime::Runtime, l: &mut Local, only
     });
     let handle = vzone::validator(up, world.anchors(), None);
     let hasher = |x: &Name| world.hash(x);
+    // The answers that do NOT have the shape the reference expects (C10's deviations): what does
+    // the validator make of them? A response whose own claim (read off its shape) is FALSE in the
+    // zone must not come back Secure - server and validator must not agree on a wrong answer.
+    for (qn, t) in &deviations {
+        let (qn, t) = (qn.clone(), *t);
+        let name = Name::parse(&qn);
+        let m = &table[&(vzone::hname(&qn), RecordType::from(t))];
+        let Some(claim) = observed_claim(m, &name) else {
+            l.outcome("deviation:positive-or-referral-shape");
+            continue;
+        };
+        let mut tr = dn::truth(&[world.rz.clone()], &name, t, &claim);
+        let (_, _, opt_out) = params(&world.signing);
+        if opt_out && t == rz::T_DS && matches!(claim, Claim::NoData) && matches!(tr, Err(w) if w != "has-type" && w != "out-of-zone") {
+            tr = Ok(()); // under opt-out "no DS" only asserts that no signed delegation exists (see run_claim)
+        }
+        l.eval();
+        let e = vzone::validate_with(rt, &handle, Query::new(vzone::hname(&qn), RecordType::from(t)));
+        match (&tr, e.is_secure()) {
+            (Ok(()), true) => l.outcome(&format!("deviation:true-claim:{}:secure", claim.tag())),
+            (Ok(()), false) => l.outcome(&format!("deviation:true-claim:{}:{}", claim.tag(), e.class())),
+            (Err(why), false) => l.outcome(&format!("deviation:false-claim:{}:{why}:{}", claim.tag(), e.class())),
+            (Err(why), true) => {
+                l.violation(
+                    &format!("unsound-e2e:server-answer:{}:{why}", claim.tag()),
+                    &format!("the server's (wrong) DO=1 answer for {qn} {} claims {} although that is false in the zone ({why}), and the validator accepts it as Secure", rz::type_name(t), claim.tag()),
+                    || json!({"level": "completeness", "zone": world.spec.to_json(), "signing": world.signing.tag(), "world": world.text, "qname": qn, "qtype": t, "qtype_name": rz::type_name(t), "claim": claim_json(&claim)}),
+                );
+            }
+        }
+    }
     for (qn, t, class) in todo {
         l.eval();
         let e = vzone::validate_with(rt, &handle, Query::new(vzone::hname(&qn), RecordType::from(t)));
@@ -835,6 +905,97 @@ fn iteration_limits(spec: &ZoneSpec, rt: &tokio::runtime::Runtime, l: &mut Local
 
 // ------------------------------------------------------------------------------------------
 
+/// Parameters at the boundaries of their integer widths and of the DEFAULT limits (soft 100,
+/// hard 500, RFC 9276): iterations 100 / 101 / 500 / 501 / 65535 and a 255-octet salt, zones
+/// signed by the real `nsec3_zone` with exactly those parameters.
+///  * iterations <= 100 (and the 255-octet salt): the full decision-level enumeration (`run_claim`);
+///  * 101..=500: never Secure; 501 and 65535: Bogus — every subset, every claim;
+///  * limits (65535, 65535) with iterations 65535: not above any limit, judged like any other
+///    zone (Secure => claim true), full chain only (each call hashes ~6 names 65536 times).
+fn boundary_params(spec: &ZoneSpec, rt: &tokio::runtime::Runtime, l: &mut Local, cnt: &Counters) {
+    let long_salt: Vec<u8> = (0..255u32).map(|i| (i * 7 + 1) as u8).collect();
+    for (it, salt) in [(100u16, vec![]), (0, long_salt.clone()), (1, long_salt), (101, vec![]), (500, vec![]), (501, vec![]), (65535, vec![0xab])] {
+        let signing = Signing::Nsec3 { iterations: it, salt: salt.clone(), opt_out: false };
+        let Ok(mut w) = build_world(spec, &signing) else {
+            l.violation("zone-build-failed", "boundary parameters", || json!({"zone": spec.to_json(), "signing": signing.tag()}));
+            continue;
+        };
+        l.outcome(&format!("boundary:zone:iterations={it}:salt-len={}", salt.len()));
+        w.qtypes = vec![rz::T_A, rz::T_DS];
+        if it <= SOFT {
+            if !check_chain(&w, l) {
+                continue;
+            }
+            let masks = w.masks();
+            for qn in w.qnames.clone() {
+                let name = Name::parse(&qn);
+                for t in [rz::T_A, rz::T_DS] {
+                    for claim in w.claims(&name, t) {
+                        run_claim(&w, &qn, t, &claim, None, &masks, rt, l, cnt);
+                    }
+                }
+            }
+            continue;
+        }
+        let masks = w.masks();
+        for qn in &w.qnames {
+            let qname = Name::parse(qn);
+            if !qname.at_or_below(&w.apex) {
+                continue;
+            }
+            let hq = vzone::hname(qn);
+            for t in [rz::T_A, rz::T_DS] {
+                let query = Query::new(hq.clone(), RecordType::from(t));
+                for claim in w.claims(&qname, t) {
+                    let answers = w.expanded_answer(&claim, &hq, true);
+                    for &mask in &masks {
+                        let sub: Vec<(&HName, &NSEC3)> = (0..w.recs.len()).filter(|i| mask >> i & 1 == 1).map(|i| (&w.recs[i].0, &w.recs[i].1)).collect();
+                        l.eval();
+                        let v = match vcore::catch(|| verify_nsec3(&query, Some(&w.origin), rcode_of(&claim), &answers, &sub, SOFT, HARD)) {
+                            Ok(v) => v,
+                            Err(p) => {
+                                l.violation(&format!("panic:{}", vcore::short_loc(&p.loc)), &p.msg, || json!({"level": "boundary", "zone": spec.to_json(), "iterations": it, "qname": qn, "qtype": t, "mask": mask}));
+                                continue;
+                            }
+                        };
+                        l.outcome(&format!("boundary:iterations={it}:{}", format!("{v:?}").to_lowercase()));
+                        let bad = if it > HARD && v != Proof::Bogus {
+                            Some(format!("iterations:above-hard-limit:not-bogus:{}", format!("{v:?}").to_lowercase()))
+                        } else if it > SOFT && v == Proof::Secure {
+                            Some("iterations:above-soft-limit:secure".to_string())
+                        } else {
+                            None
+                        };
+                        if let Some(k) = bad {
+                            l.violation(&k, &format!("iterations={it} with the default limits soft={SOFT} hard={HARD}: verdict {v:?}"), || {
+                                json!({"level": "boundary", "zone": spec.to_json(), "iterations": it, "soft": SOFT, "hard": HARD, "qname": qn, "qtype": t, "claim": claim_json(&claim), "mask": mask})
+                            });
+                        }
+                    }
+                    // limits at the top of u16: iterations 65535 is not above them
+                    if it == 65535 {
+                        let mask = *masks.last().unwrap();
+                        let sub: Vec<(&HName, &NSEC3)> = (0..w.recs.len()).filter(|i| mask >> i & 1 == 1).map(|i| (&w.recs[i].0, &w.recs[i].1)).collect();
+                        l.eval();
+                        match vcore::catch(|| verify_nsec3(&query, Some(&w.origin), rcode_of(&claim), &answers, &sub, 65535, 65535)) {
+                            Err(p) => l.violation(&format!("panic:{}", vcore::short_loc(&p.loc)), &p.msg, || json!({"level": "boundary", "zone": spec.to_json(), "iterations": it, "soft": 65535, "hard": 65535, "qname": qn, "qtype": t})),
+                            Ok(v) => {
+                                l.outcome(&format!("boundary:limits=65535:{}", format!("{v:?}").to_lowercase()));
+                                let tr = dn::truth(&[w.rz.clone()], &qname, t, &claim);
+                                if v == Proof::Secure && tr.is_err() {
+                                    // (a false claim accepted here is the same defect as in the main enumeration, where it
+                                    // is keyed by its mechanism; only the count is kept)
+                                    l.outcome("boundary:limits=65535:secure-false-claim");
+                                }
+                            }
+                        }
+                    }
+                }
+            }
+        }
+    }
+}
+
 fn run_world(world: &World, rt: &tokio::runtime::Runtime, l: &mut Local, cnt: &Counters, sample: bool) {
     if !check_chain(world, l) {
         // the published records do not describe the zone (a signer defect, reported above): what
@@ -907,6 +1068,7 @@ fn main() {
         let rt = vsim::rt();
         ctx.with_local(|l| match case["level"].as_str() {
             Some("limits") => iteration_limits(&spec, &rt, l, &cnt),
+            Some("boundary") => boundary_params(&spec, &rt, l, &cnt),
             Some("reowned") => {
                 let w = build_world(&spec, &Signing::from_tag(case["signing"].as_str().unwrap_or("nsec3:i0:s-:noopt")).unwrap()).unwrap();
                 reowned(&spec, &w, l);
@@ -946,7 +1108,7 @@ fn main() {
          thorough both parameter sets with and without opt-out; x every qname of {apex, U(3), x.o., names below cuts} x qtype {A,TXT,DS,NS,CNAME} x claim {NXDOMAIN, NODATA, expansion of each \
          published wildcard RRset} x soa {apex, absent} x EVERY non-empty subset of the zone's NSEC3 records (>7 records: subsets of size <=3) -> verify_nsec3; \
          oracle: Secure => claim true in the zone (vref::denial::truth) and the subset is the RFC 5155 section 8 proof with opt-out only for DS (nsec3_proves). \
-         Plus parameter mixtures and records re-owned below descendants {a.z.,b.z.,a.a.z.,*.z.} / the ancestor (root) / an unrelated zone of the SOA owner, whole subsets and single members (never Secure), iterations 0..3 x limits {(1,2),(0,0),(2,2)}, completeness of every negative/wildcard DO=1 \
+         Plus parameter mixtures and records re-owned below descendants {a.z.,b.z.,a.a.z.,*.z.} / the ancestor (root) / an unrelated zone of the SOA owner, whole subsets and single members (never Secure), iterations 0..3 x limits {(1,2),(0,0),(2,2)}, boundary parameters (iterations 100/101/500/501/65535 against the default limits 100/500, 255-octet salt, limits 65535/65535), completeness of every negative/wildcard DO=1 \
          server answer through the real DnssecDnsHandle. Non-trivial = distinct (world, qname, qtype) for which some enumerated (claim, soa, subset) has a false claim or a valid proof of >= 2 records, plus each completeness case.",
     );
     ctx.assume("vref::zone + vref::denial (self-tested on every run against RFC 4592, RFC 4034 6.1, RFC 4035 app. A/B, RFC 5155 app. A hash vectors and app. B)");
@@ -1019,6 +1181,12 @@ fn main() {
     ctx.set("limit_zones", json!(lim.len()));
     ctx.par_run_init(lim.len() as u64, 1, |_| vsim::rt(), |i, l, rt| iteration_limits(lim[i as usize], rt, l, &cnt));
 
+    // parameters at the integer-width / default-limit boundaries: the empty zone and the zones with one
+    // owner of kind A (quick), every zone with <= 1 owner (thorough)
+    let bnd: Vec<&ZoneSpec> = specs.iter().filter(|s| s.owners.is_empty() || (s.owners.len() == 1 && (thorough || s.owners[0].1 == Kind::A))).collect();
+    ctx.set("boundary_zones", json!(bnd.len()));
+    ctx.par_run_init(bnd.len() as u64, 1, |_| vsim::rt(), |i, l, rt| boundary_params(bnd[i as usize], rt, l, &cnt));
+
     ctx.set("traces_validated_against_impl", json!(cnt.bound.load(Ordering::Relaxed)));
     if ctx.outcome_count("reference-inconsistent") > 0 {
         ctx.machinery_failure("vref::denial is inconsistent: nsec3_proves accepted a claim that truth() calls false (see stderr)");
@@ -1040,6 +1208,10 @@ fn main() {
     need.insert("limits:above-hard:bogus", "the hard iteration limit was never exceeded");
     need.insert("limits:above-soft:insecure", "the soft iteration limit was never exceeded");
     need.insert("limits:within:secure", "no proof within the limits was accepted");
+    need.insert("boundary:iterations=101:insecure", "iterations just above the default soft limit were never exercised");
+    need.insert("boundary:iterations=501:bogus", "iterations just above the default hard limit were never exercised");
+    need.insert("boundary:iterations=65535:bogus", "iterations = u16::MAX were never exercised");
+    need.insert("boundary:zone:iterations=1:salt-len=255", "the 255-octet salt was never exercised");
     need.insert("zone:hash-order-differs-from-name-order", "no zone whose hash order differs from its name order");
     for (class, why) in need {
         if ctx.outcome_count(class) == 0 {
